@@ -156,3 +156,22 @@ func init() {
 		Assumptions: []string{"JWS contract as documented by go-jose: verification with the signing key returns the signed payload, any other key fails"},
 	})
 }
+
+func init() {
+	reg(&propCfg{
+		ID:      "C07",
+		Pkgs:    []string{"c14n"},
+		Lenient: []string{"c14n"},
+		Stages:  []stage{{Name: "units", Harness: `^H_C07_`}},
+		Functions: []string{"c14n.encodeString", "c14n.(*Object).Sort", "c14n.(*Object).MarshalJSON", "c14n.(*Attribute).MarshalJSON", "c14n.(*Array).MarshalJSON", "c14n.Integer.MarshalJSON",
+			"c14n.Float.MarshalJSON (post-processing)", "c14n.String/Bool/Null.MarshalJSON", "c14n.safeSet", "unicode/utf8.DecodeRuneInString", "bytes.Buffer methods"},
+		Stubs: []string{"strconv.AppendFloat(…,'E',-1,64): contract stub yielding symbolic text of the documented form -?d(.d+)?E[+-]dd+ (native replay uses the real formatter on the denoted float)",
+			"sort.SliceStable: stable insertion sort driven by the real less closure", "strconv.FormatInt: digit model", "encoding/json.Decoder token layer: not encoded (see outside)"},
+		Bounds: map[string][]string{
+			"quick":    {"strings: every byte string of length 0..3 (all 256 values per byte)", "integers: every int64", "objects: 0..3 members, one-byte keys over a..d (distinct), values Integer(-99..99) / Null / Bool / one-byte String", "arrays: 0..3 such values", "float text: optional sign, 1 leading digit, 0..2 fraction digits, signed 2..3 digit exponent"},
+			"thorough": {"strings of length 0..4; otherwise as quick"},
+		},
+		Outside:     []string{"the token layer (UnmarshalJSON/handleNextToken/...) on encoding/json.Decoder: malformed / empty / truncated / trailing input (DESIGN 8 #6, #7 not re-found by a check)", "nesting beyond one level", "strings longer than the bound"},
+		Assumptions: []string{"README of c14n is the specification", "go/ssa faithful; z3 sound"},
+	})
+}
